@@ -845,10 +845,16 @@ func c11Gen(tier string, rng *rand.Rand, emit func(string)) map[string]interface
 						mids = append(mids, "o0 ; u"+strconv.Itoa(x)+" ; s") // a second subscription while the first is in flight
 					}
 				}
-				mids = append(mids, "e", "o0 ; y", "b")
-				for z := 1; z <= 3; z++ {
+				mids = append(mids, "e", "b")
+				for z := 0; z <= 3; z++ {
 					if z != o {
-						mids = append(mids, "o"+strconv.Itoa(z)+" ; y")
+						// YieldFromIO re-configures the object itself (SubscribeOn(nil)); whether it does is not part of the
+						// property, so where it would matter for the call itself the script resets subOn explicitly first
+						pre := ""
+						if !(sb == 0 || (sb != o && sb != z)) {
+							pre = "u0 ; "
+						}
+						mids = append(mids, pre+"o"+strconv.Itoa(z)+" ; y")
 					}
 				}
 				for mi, mid := range mids {
